@@ -272,4 +272,4 @@ func verifServerReplyToRequest(b []byte, c2s []byte, req *Packet, cookie []byte,
 
 //@ func verifServerReplyToRequest
 //@   noframe
-//@   requires req != nil && len(cookie) == 124 && len(s2c) == 32 && len(b) <= 512
+//@   requires req != nil && len(cookie) == 124 && len(s2c) == 32 && len(b) <= 2048
